@@ -309,7 +309,7 @@ func init() {
 		},
 		Stages: []*fw.Stage{
 			{
-				Name: "singlecuts", N: q(3000, 100000), Exhaustive: "every single cut position of each generated stream <= 64 octets; every cut pair for streams <= 32 octets",
+				Name: "singlecuts", N: q(3000, 400000), Exhaustive: "every single cut position of each generated stream <= 64 octets; every cut pair for streams <= 32 octets",
 				Run: func(c *fw.Case) {
 					frames := genFrames(c.R, 4, true)
 					stream, _ := concat(frames)
@@ -329,7 +329,7 @@ func init() {
 				},
 			},
 			{
-				Name: "multicut", N: q(6000, 300000),
+				Name: "multicut", N: q(6000, 1200000),
 				Run: func(c *fw.Case) {
 					frames := genFrames(c.R, 8, false)
 					stream, _ := concat(frames)
@@ -354,7 +354,7 @@ func init() {
 				},
 			},
 			{
-				Name: "blockingfaults", N: q(3000, 100000), Exhaustive: "every fault position x {EOF, ErrUnexpectedEOF, custom error} of each generated stream <= 64 octets",
+				Name: "blockingfaults", N: q(3000, 400000), Exhaustive: "every fault position x {EOF, ErrUnexpectedEOF, custom error} of each generated stream <= 64 octets",
 				Run: func(c *fw.Case) {
 					frames := genFrames(c.R, 4, true)
 					stream, ends := concat(frames)
@@ -374,7 +374,7 @@ func init() {
 				},
 			},
 			{
-				Name: "blockingrandom", N: q(4000, 200000),
+				Name: "blockingrandom", N: q(4000, 800000),
 				Run: func(c *fw.Case) {
 					frames := genFrames(c.R, 8, false)
 					stream, ends := concat(frames)
@@ -397,7 +397,7 @@ func init() {
 			{
 				// one codec value serving several connections, as a server does: extraction on one stream must not be
 				// disturbed by extraction on another stream that happens in between
-				Name: "sharedcodec", N: q(6000, 200000),
+				Name: "sharedcodec", N: q(6000, 600000),
 				Run: func(c *fw.Case) {
 					r := c.R
 					each(func(name string, cd codec.Codec) {
@@ -496,7 +496,7 @@ func init() {
 				},
 			},
 			{
-				Name: "shortprefix", N: q(4000, 100000), Exhaustive: "prefix values 0..3 at every frame position of each generated frame list",
+				Name: "shortprefix", N: q(4000, 400000), Exhaustive: "prefix values 0..3 at every frame position of each generated frame list",
 				Run: func(c *fw.Case) {
 					frames := genFrames(c.R, 4, true)
 					for pos := 0; pos <= len(frames); pos++ {
